@@ -447,7 +447,7 @@ fn natural_pairs(args: &Args) {
     let thorough = args.get("tier", "quick") == "thorough";
     let count = args.num("count", if thorough { 60000 } else { 2500 }) as usize;
     let mut rng = Rng::new(seed);
-    let mut h = Hist::new(&dir, "natural", "natural", args.num("chunk", 2500) as usize);
+    let mut h = Hist::new(&dir, "natural", "natural", args.num("chunk", 5000) as usize);
 
     // ---- construction ----
     let sets = boundary_digit_sets(thorough);
@@ -511,7 +511,13 @@ fn natural_pairs(args: &Args) {
         let (x, y) = (huge.clone(), huge.clone());
         catch(move || x + y).unwrap_or(one.clone() << u64::MAX)
     };
-    let specials = [nan_shr, nan_shl, nan_add, huge.clone(), huge3.clone()];
+    // a sum whose exponent would exceed u64 (the library's NaN constant)
+    let nan_const = {
+        let x = Natural::from(7u32) << (u64::MAX - 2);
+        let y = Natural::from(1u32) << (u64::MAX - 2);
+        catch(move || x + y).unwrap_or(Natural::from(1u32) << u64::MAX)
+    };
+    let specials = [nan_shr, nan_shl, nan_add, nan_const, huge.clone(), huge3.clone()];
     for s in &specials {
         // only exponent-level operations on the huge ones (their expansion
         // would not fit in memory)
@@ -908,10 +914,11 @@ fn dyadic(neg: bool, m: u64, e: i32) -> f64 {
 }
 
 fn rand_dyadic(rng: &mut Rng) -> f64 {
-    let mbits = match rng.below(5) {
+    let mbits = match rng.below(8) {
         0 => 1 + rng.below(4),
-        1 => 1 + rng.below(26),
-        2 => 53,
+        1 | 2 => 1 + rng.below(12),
+        3 | 4 => 1 + rng.below(26),
+        5 => 53,
         _ => 1 + rng.below(53),
     };
     let m = (rng.next() >> (64 - mbits as u32)) | if rng.chance(1, 2) { 1 } else { 0 };
